@@ -1,6 +1,7 @@
 // VF-BUILD: tbb
 // C19 (collaborative_call_once) - exactly one successful run per flag; every caller returns after it and sees its effects;
 // a thrown exception reaches exactly one caller and the flag is retried.  Real scheduler under vsched.
+// -p cancelled=1 (caller 0 calls from inside a task whose task_group has been cancelled)
 // -p callers=N (2..3)  -p mask=M (attempt i of the function throws iff bit i of M)  -p inner=1 (the function runs a task_group, so waiting callers moonlight)
 #include <oneapi/tbb/collaborative_call_once.h>
 #include <oneapi/tbb/task_group.h>
@@ -10,17 +11,20 @@
 using namespace vfh;
 struct Boom { int attempt; };
 static void scenario() {
-    int callers = (int)vf_param_int("callers", 2), mask = (int)vf_param_int("mask", 0), inner = (int)vf_param_int("inner", 0);
+    int callers = (int)vf_param_int("callers", 2), mask = (int)vf_param_int("mask", 0), inner = (int)vf_param_int("inner", 0), cancelled = (int)vf_param_int("cancelled", 0);
     tbb::global_control gc(tbb::global_control::max_allowed_parallelism, 2);
     tbb::collaborative_once_flag flag; int attempts = 0, successes = 0, payload = 0, inner_done = 0, live = 0;
     std::vector<int> caught(callers, -1), returned(callers, 0), saw(callers, 0);
     auto fn = [&] { int a = attempts++; if (++live != 1) vf_fail("two invocations of the once-function run at the same time"); vf_point();
-        if (inner) { tbb::task_group tg; tg.run([&] { inner_done++; }); tg.run([&] { inner_done++; }); tg.wait(); }
+        if (inner) { int before = inner_done; tbb::task_group tg; tg.run([&] { inner_done++; }); tg.run([&] { inner_done++; }); tg.wait();
+            if (inner_done != before + 2) vf_fail("the nested tasks of the once-function were skipped (%d of 2 ran): the function ran under the cancelled task group of its caller", inner_done - before); }
         if (mask >> a & 1) { --live; throw Boom{a}; }
         vf_plain_write(&payload); payload = 42; successes++; --live; };
     vf_liveness(1);
     auto ids = gated(callers, [&](int) { (void)tbb::this_task_arena::max_concurrency(); }, [&](int i) {
-        try { tbb::collaborative_call_once(flag, fn); returned[i] = 1; vf_plain_read(&payload); saw[i] = payload; if (successes != 1) vf_fail("caller %d returned but %d successful runs so far", i, successes); }
+        try { if (cancelled && i == 0) { tbb::task_group outer; outer.run_and_wait([&] { outer.cancel(); tbb::collaborative_call_once(flag, fn); }); }   /* caller 0 calls from a task whose group is already cancelled: the function is not part of that group */
+              else tbb::collaborative_call_once(flag, fn);
+              returned[i] = 1; vf_plain_read(&payload); saw[i] = payload; if (successes != 1) vf_fail("caller %d returned but %d successful runs so far", i, successes); }
         catch (Boom& b) { caught[i] = b.attempt; } });
     open_window_and_join(ids);
     vf_liveness(0);
